@@ -5,6 +5,7 @@ import (
 	"context"
 	"errors"
 	"fmt"
+	"io"
 	"net"
 	"net/netip"
 	"testing"
@@ -13,6 +14,7 @@ import (
 	"pgregory.net/rapid"
 
 	"github.com/jech/storrent/alloc"
+	"github.com/jech/storrent/crypto"
 	"github.com/jech/storrent/hash"
 	"github.com/jech/storrent/known"
 	"github.com/jech/storrent/peer"
@@ -33,7 +35,7 @@ func TestMain(m *testing.M) {
 
 var opNames = []string{"GetStats", "GetAvailable", "DropPeer", "GetPeer", "GetPeers", "GetKnown", "GetKnowns",
 	"GetConf", "SetConf", "Request(want)", "Request(nowait)", "Request(withdraw)", "AddKnown", "Have", "BadPeer", "NewPeer",
-	"Kill", "tor.Announce", "Reader.Read", "Reader.ReadBlocked", "Reader.Close", "tor.Expire",
+	"Kill", "tor.Server", "tor.Client", "tor.Announce", "Reader.Read", "Reader.ReadBlocked", "Reader.Close", "tor.Expire",
 	"HTTP front page", "HTTP ?q=peers", "HTTP ?q=delete", "HTTP ?q=set-torrent", "HTTP file GET"}
 
 var stopNames = []string{"already-dead", "queued-behind-goaway", "ahead-of-goaway", "ctx-cancel", "queue-full", "queue-full-ctx-cancel", "burst"}
@@ -102,6 +104,48 @@ func (w *world) runOp(name string, arg int) opResult {
 		id[0] = 99
 		r.err = t.NewPeer("", a, netip.MustParseAddrPort("9.9.9.10:100"), false,
 			protocol.HandshakeResult{Hash: t.Hash, Id: id}, nil)
+	case "tor.Server", "tor.Client":
+		// a connection being established: handshake, then three queries to the
+		// torrent's loop (GetStats, GetPeer; DropPeer only with 50 peers connected) and
+		// NewPeer.  The remote side plays its part of the handshake and then reads
+		// until the connection is closed: whatever happens to the torrent in
+		// between, somebody must close it (a connection nobody closes leaves this
+		// goroutine blocked when the case ends).
+		a, b := net.Pipe()
+		id := make([]byte, 20)
+		copy(id, fmt.Sprintf("-VF0001-c17conn%05d", arg))
+		hs := append([]byte{19}, []byte("BitTorrent protocol")...)
+		hs = append(hs, 0, 0, 0, 0, 0, 0x10, 0, 0x05)
+		hs = append(hs, t.Hash...)
+		hs = append(hs, id...)
+		go func() {
+			defer b.Close()
+			if name == "tor.Server" {
+				if _, err := b.Write(hs); err != nil {
+					return
+				}
+			} else {
+				got := make([]byte, 68)
+				if _, err := io.ReadFull(b, got); err != nil {
+					return
+				}
+				if _, err := b.Write(hs); err != nil {
+					return
+				}
+			}
+			buf := make([]byte, 4096)
+			for {
+				if _, err := b.Read(buf); err != nil {
+					return
+				}
+			}
+		}()
+		opts := crypto.DefaultOptions(false, false)
+		if name == "tor.Server" {
+			r.err = tor.Server(pipeConn{a, &net.TCPAddr{IP: net.IPv4(8, 8, 2, byte(arg)), Port: 40000 + arg%1000}}, opts)
+		} else {
+			r.err = tor.Client(a, t, netip.MustParseAddrPort("9.9.9.11:101"), "", false, opts)
+		}
 	case "Kill":
 		r.err = t.Kill(context.Background())
 		if r.err == nil {
@@ -296,7 +340,25 @@ func oneCase(rt *rapid.T, opName, stop string) (fail string, labels []string) {
 		sim.Settle()
 		return ch
 	}
+	// chatty remotes: a burst of messages is on its way to every peer at the
+	// moment the torrent stops (each peer's reader has a queue of 32 towards the
+	// peer's loop; the loop may notice the torrent's death before it has emptied it)
+	chatty := rapid.Bool().Draw(rt, "chattyRemotes")
+	chatter := func() {
+		if !chatty {
+			return
+		}
+		var burst []byte
+		for k := 0; k < 300; k++ {
+			burst = append(burst, 0, 0, 0, 0)
+		}
+		for _, r := range w.remotes {
+			r := r
+			go r.SendRaw(burst)
+		}
+	}
 	release := func(ch chan *peer.TorStats) {
+		chatter()
 		select {
 		case <-ch:
 		case <-t.Done:
@@ -362,8 +424,12 @@ func oneCase(rt *rapid.T, opName, stop string) (fail string, labels []string) {
 		w.cancel()
 		release(ch)
 	case "burst":
+		chatter()
 		start()
 		go func() { killed <- t.Kill(context.Background()) }()
+	}
+	if chatty && len(w.remotes) > 0 && stop != "already-dead" {
+		labels = append(labels, "messages-in-flight-to-peers-at-stop")
 	}
 	// deletion closes peer connections itself, not the peers' five-minute
 	// idle time-out: look after 30 s
@@ -377,6 +443,16 @@ func oneCase(rt *rapid.T, opName, stop string) (fail string, labels []string) {
 				return fmt.Sprintf("operation %s, stop point %s: deletion was reported complete while a piece was still being hashed and %d bytes of the torrent's memory were still allocated", opName, stop, left), nil
 			}
 		default:
+		}
+		// a peer that has not noticed the torrent's death yet delivers blocks, for
+		// pieces before and after the one being hashed, while the deletion waits
+		if rapid.Bool().Draw(rt, "lateData") {
+			for i := 0; i < x.N; i++ {
+				if i != hashing {
+					t.Pieces.AddData(uint32(i), 0, x.Data(i, 0, 16384), 7)
+				}
+			}
+			labels = append(labels, "data-arrives-while-deletion-waits-for-the-hasher")
 		}
 		close(hashRelease)
 		labels = append(labels, "hash-in-flight-during-deletion")
@@ -402,7 +478,10 @@ func oneCase(rt *rapid.T, opName, stop string) (fail string, labels []string) {
 		if r.name == "Kill" && r.note != "" {
 			return fmt.Sprintf("%s: %s", describe, r.note), nil
 		}
-		if !acceptable(r.err) {
+		if !acceptable(r.err) && r.name != "tor.Server" && r.name != "tor.Client" {
+			// (establishing a connection may fail in many legitimate ways: unknown
+			// torrent once it is unlisted, a reset pipe; what counts there is that
+			// the call returns and the connection ends up closed)
 			return fmt.Sprintf("%s: returned unexpected error %v", describe, r.err), nil
 		}
 		if r.err != nil {
@@ -527,3 +606,10 @@ func TestReg_c17_reader_after_death(t *testing.T) {
 		}
 	})
 }
+
+type pipeConn struct {
+	net.Conn
+	remote net.Addr
+}
+
+func (p pipeConn) RemoteAddr() net.Addr { return p.remote }
